@@ -39,6 +39,10 @@ pub struct QueueCase {
     /// call with_error_handler before with_capacity on the builder (the order must not matter)
     #[serde(default)]
     pub handler_first: bool,
+    /// without a handler: construct through QueuingMetricSink::from / ::with_capacity
+    /// instead of the builder
+    #[serde(default)]
+    pub direct_ctor: bool,
     pub ops: Vec<QOp>,
 }
 
@@ -140,6 +144,20 @@ impl Actor {
     where
         S: MetricSink + Sync + Send + std::panic::RefUnwindSafe + 'static,
     {
+        Self::spawn_full(gate, cap, handler, handler_first, false, make_sink)
+    }
+
+    pub fn spawn_full<S>(
+        gate: Arc<Gate>,
+        cap: Option<usize>,
+        handler: bool,
+        handler_first: bool,
+        direct_ctor: bool,
+        make_sink: impl FnOnce() -> S + Send + 'static,
+    ) -> Actor
+    where
+        S: MetricSink + Sync + Send + std::panic::RefUnwindSafe + 'static,
+    {
         let (ctx, crx) = bounded::<Cmd>(4);
         let (rtx, rrx) = bounded::<Reply>(4);
         let (idtx, idrx) = bounded::<ThreadId>(1);
@@ -151,6 +169,12 @@ impl Actor {
                 g2.register_producer(me);
                 let _ = idtx.send(me);
                 let built = util::catch(|| {
+                    if direct_ctor && !handler {
+                        return match cap {
+                            None => QueuingMetricSink::from(make_sink()),
+                            Some(c) => QueuingMetricSink::with_capacity(make_sink(), c),
+                        };
+                    }
                     let mut b = QueuingMetricSink::builder();
                     if handler && handler_first {
                         let hg = HandlerGate(g2.clone());
@@ -199,6 +223,9 @@ impl Actor {
                             let q = handles[h].as_ref().unwrap();
                             // queued first, then the monotone counters
                             let queued = q.queued();
+                            // read-only accessors must have no side effects on the queue
+                            let _ = q.stats();
+                            let _ = format!("{:?}", q);
                             (q.submitted(), q.drained(), queued, q.panics())
                         }) {
                             Ok((submitted, drained, queued, panics)) => Reply::Stats {
@@ -263,7 +290,7 @@ pub fn run_case(case: &QueueCase, ctx: &Ctx) -> Run {
         };
     }
     let g2 = gate.clone();
-    let actor = Actor::spawn_ordered(gate.clone(), case.cap, case.handler, case.handler_first, move || GatedSink { gate: g2 });
+    let actor = Actor::spawn_full(gate.clone(), case.cap, case.handler, case.handler_first, case.direct_ctor, move || GatedSink { gate: g2 });
     match actor.rx.recv_timeout(w) {
         Ok(Reply::Done) => {}
         Ok(Reply::Panicked(p)) => {
@@ -833,7 +860,7 @@ pub fn run_case(case: &QueueCase, ctx: &Ctx) -> Run {
 fn step_out(err_w: u32, panic_w: u32) -> impl Strategy<Value = StepOut> {
     prop_oneof![
         6 => Just(StepOut::Ok),
-        err_w => (0u8..12).prop_map(StepOut::Err),
+        err_w => (0u8..13).prop_map(StepOut::Err),
         panic_w => Just(StepOut::Panic),
     ]
 }
@@ -869,13 +896,14 @@ pub fn queue_case(g: QGen) -> BoxedStrategy<QueueCase> {
         g.clone_w => any::<u16>().prop_map(QOp::Clone),
         g.drop_w => any::<u16>().prop_map(QOp::Drop),
         g.step_w => step_out(g.err_w, g.panic_w).prop_map(QOp::Step),
-        g.flush_w => (any::<u16>(), prop_oneof![Just(StepOut::Ok), (0u8..12).prop_map(StepOut::Err)]).prop_map(|(h, o)| QOp::Flush(h, o)),
+        g.flush_w => (any::<u16>(), prop_oneof![Just(StepOut::Ok), (0u8..13).prop_map(StepOut::Err)]).prop_map(|(h, o)| QOp::Flush(h, o)),
     ];
     (cap_strategy(), prop::bool::weighted(g.handler_p), any::<bool>(), prop::collection::vec(op, 0..=g.max_ops))
         .prop_map(|(cap, handler, handler_first, ops)| QueueCase {
             cap,
             handler,
             handler_first,
+            direct_ctor: !handler && handler_first,
             ops,
         })
         .boxed()
@@ -910,7 +938,7 @@ pub fn ending_case() -> BoxedStrategy<QueueCase> {
             for o in outs {
                 ops.push(QOp::Step(o));
             }
-            Just(QueueCase { cap, handler, handler_first: under == 1, ops })
+            Just(QueueCase { cap, handler, handler_first: under == 1, direct_ctor: !handler && under == 2, ops })
         })
         .boxed()
 }
@@ -946,6 +974,7 @@ pub fn ending_enumeration(max_cap: usize, outcomes: &[StepOut]) -> Vec<QueueCase
                             cap,
                             handler,
                             handler_first: false,
+                            direct_ctor: !handler && occ % 2 == 1,
                             ops: ops.clone(),
                         });
                     }
